@@ -7,18 +7,6 @@ V = os.path.dirname(os.path.dirname(os.path.abspath(__file__)))
 # (key regex, what fails, confirmation reference)
 KNOWN = [
  (r"^C01\.R1\|.*add_encrypted_data\|caller-chosen-index$", "add_encrypted_data(.., block_index=1) for the chunk at position 0: build/parse/decompress_with_keys all Ok, decode yields 65 garbage bytes instead of the 64 input bytes or an error (an in-tree unit test passes index 1 on purpose, so no fix without editing tests)", "findings/A2"),
- (r"^C02\.R2\|.*EncodingFile>::parse\|vec-from-elem\|field EncodingHeader\.espec_block_size$", "22-byte encoding header with espec_block_size 0xFFFFFFFF: vec![0; n] requests 4,294,967,295 bytes", "findings/A4a"),
- (r"^C02\.R2\|.*EncodingFile>::parse\|Vec::with_capacity\|field EncodingHeader\.ckey_page_count$", "24 input bytes, ckey_page_count 0xFFFFFFFF: Vec::with_capacity requests 137,438,953,440 bytes (abort)", "findings/A4a"),
- (r"^C02\.R2\|.*EncodingFile>::parse\|Vec::with_capacity\|field EncodingHeader\.ekey_page_count$", "1080 input bytes, ekey_page_count 0xFFFFFFFF: Vec::with_capacity requests 137,438,953,440 bytes (abort)", "findings/A4a"),
- (r"^C02\.R2\|.*InstallManifest>::parse\|Vec::with_capacity\|field InstallHeader\.entry_count$", "10-byte install header with entry_count 0xFFFFFFFF: Vec::with_capacity requests 206,158,430,160 bytes (abort)", "findings/A4b"),
- (r"^C02\.R2\|.*InstallTag as BinRead>::read_options\|vec-from-elem\|binrw args", "14 input bytes: tag bit mask vec![0; entry_count.div_ceil(8)] requests 536,870,912 bytes before failing", "findings/A4b"),
- (r"^C02\.R2\|.*DownloadManifest>::parse\|Vec::with_capacity\|accessor entry_count", "11-byte download header: Vec::with_capacity requests 274,877,906,880 bytes (abort)", "findings/A4c"),
- (r"^C02\.R2\|.*SizeManifest>::parse\|Vec::with_capacity\|accessor entry_count", "15-byte size manifest header: Vec::with_capacity requests 137,438,953,440 bytes (abort)", "findings/A4d"),
- (r"^C02\.R2\|.*PatchIndexHeader>::parse\|Vec::with_capacity\|value read from input", "18-byte patch-index header: Vec::with_capacity(block_count) requests 34,359,738,360 bytes (abort)", "findings/A4e"),
- (r"^C02\.R2\|.*ChunkData as BinRead>::read_options\|vec-from-elem\|binrw args", "37-byte BLTE with chunk-table compressed_size 0xFFFFFFFF: vec![0; compressed_size-1] requests 4,294,967,294 bytes", "findings/A4g"),
- (r"^C02\.R2\|.*BlteFile>::decompress\|Vec::with_capacity\|accessor estimate_decompressed_size", "37-byte BLTE: decompress() pre-allocates the uncapped sum of chunk-table decompressed_size fields (4,294,967,295 bytes; 412 bytes in -> 68,719,476,720)", "findings/A4g"),
- (r"^C02\.R2\|.*BlteFile>::decompress_with_keys\|Vec::with_capacity\|accessor estimate_decompressed_size", "same uncapped estimate in decompress_with_keys()", "findings/A4g"),
- (r"^C02\.R2\|.*IndexManager>::read_entry_block\|vec-from-elem\|field GuardedBlockHeader\.block_size$", "40-byte .idx whose entry guarded-block size is 0xFFFFFFFF: load_index requests 4,294,967,295 bytes", "findings/A4j"),
  (r"^C03\.R1\|root\|layout-predicate$", "RootBuilder V2 with 20 files / 0 named (all 840 combinations of total 16..=99 x named 0..=9): detect() says V2, the header is read as V3V4, parse is Ok and no inserted FileDataID resolves; the format is ambiguous there, a repair is a design decision", "findings/A7"),
  (r"^C06\.R3\|.*LruManager>::checkpoint_to_disk.*\|write$", "crash image with a valid generation 1 next to a half-written generation 2: run_cycle returns Err(invalid LRU file) with 0 entries, generation 1 is never tried (needs temp+fsync+rename AND fallback to the older generation)", "findings/C4"),
  (r"^C07\.R1\|.*UpdateEntry>::validate_hash_guard\|never-called$", "a bit-flipped update entry in a saved .idx loads fine and lookup serves (3, 20480, 244) instead of (3, 4096, 500); wiring the guard in changes load behaviour for existing Agent-written files", "findings/C5"),
@@ -68,6 +56,13 @@ FIXED = [
  ("C12", "bb22b86", "C12.R1 / C11.R4 promotion_tracker re-entrancy: put_to_layer(k,v,1); get(k); get(k) never returned (findings/B1)"),
  ("C11", "8c04671", "C11.R1/R2 MemoryCache get/contains stale check-then-remove: in 100k rounds a completed put was deleted 110 (get) / 99 (contains) times and the counters were decremented by the old size (findings/B2)"),
  ("C06", "84c5e00", "C06.R4 unchecked libc::fsync in DiskCache::write_file: with fsync forced to fail (EIO) put returned Ok (findings/B8)"),
+ ("C02", "7e273e1", "C02.R2 EncodingFile::parse espec_block_size / ckey_page_count / ekey_page_count: 22-24 input bytes requested 4 GiB to 128 GiB (findings/A4a)"),
+ ("C02", "19a0b06", "C02.R2 InstallManifest::parse entry_count (10 bytes -> 192 GiB) and InstallTag bit mask (14 bytes -> 512 MiB) (findings/A4b)"),
+ ("C02", "8e1bddc", "C02.R2 DownloadManifest::parse entry_count: 11 bytes -> 256 GiB (findings/A4c)"),
+ ("C02", "8c1f69e", "C02.R2 SizeManifest::parse entry_count: 15 bytes -> 128 GiB (findings/A4d)"),
+ ("C02", "2db596c", "C02.R2 PatchIndexHeader::parse block_count: 18 bytes -> 32 GiB (findings/A4e)"),
+ ("C02", "72b6f14", "C02.R2 ChunkData::read_options compressed_size and BlteFile::decompress{,_with_keys} uncapped estimate: 37 bytes -> 4 GiB (findings/A4g)"),
+ ("C02", "4166b88", "C02.R2 IndexManager::read_entry_block block_size: 40-byte .idx -> 4 GiB (findings/A4j)"),
  ("C14", "031c807", "C14.R2/R3 uncapped initial backoff (initial 5 s, max 1 s waited 5.0017 s) and negative multiplier panic in Duration::from_secs_f64 (findings/B12)"),
 ]
 
